@@ -55,6 +55,7 @@ structure ConnsPart (H : Subj) (fn : Data → Prog) (fe : Nat → Prog) (fc : Pr
     w.obs[rootAt cobs i]? = some (connObs H fn fe fc i (conns.getD i false) (armed.getD i false))
   acell : ∀ i, i < conns.length → w.cells[acell i]? = some (.bool (armed.getD i false))
   liveArmed : ∀ i, conns.getD i false = true → armed.getD i false = true
+  obsv : w.obsvs[0]? = some H.observable     -- the source the connectable was built over
 
 /-- what both sides need of the world as a whole -/
 structure Glob (roots cobs : List Nat) (w : World) : Prop where
@@ -89,7 +90,18 @@ theorem Glob.cob_inj {roots cobs w} (g : Glob roots cobs w) {i j : Nat} (hi : i 
 
 /-! ### frames -/
 
-/-- `w'` differs from `w` at most in the observers `J`, the cells `K`, and the trace -/
+def isProbe : Rec → Bool
+  | .probe _ _ => true
+  | _ => false
+
+/-- the probe records of the trace (what instrumented sources of the harness leave behind) -/
+def probesOf (w : World) : List Rec := w.trace.filter isProbe
+
+theorem probesOf_deliverTo (w : World) (o s : Nat) (ev : Ev) : probesOf (w.deliverTo o s ev) = probesOf w := by
+  unfold World.deliverTo probesOf
+  split <;> simp [World.emit, World.setObs, isProbe]
+
+/-- `w'` differs from `w` at most in the observers `J`, the cells `K`, and the user events of the trace -/
 structure Touch (J K : Nat → Prop) (w w' : World) : Prop where
   status : w'.status = w.status
   held : w'.held = w.held
@@ -100,14 +112,15 @@ structure Touch (J K : Nat → Prop) (w w' : World) : Prop where
   obs : ∀ j, ¬ J j → w'.obs[j]? = w.obs[j]?
   cellsLen : w'.cells.length = w.cells.length
   cells : ∀ i, ¬ K i → w'.cells[i]? = w.cells[i]?
+  probes : probesOf w' = probesOf w
 
 theorem Touch.refl (J K : Nat → Prop) (w : World) : Touch J K w w :=
-  ⟨rfl, rfl, rfl, rfl, rfl, rfl, fun _ _ => rfl, rfl, fun _ _ => rfl⟩
+  ⟨rfl, rfl, rfl, rfl, rfl, rfl, fun _ _ => rfl, rfl, fun _ _ => rfl, rfl⟩
 
 theorem Touch.trans {J K w1 w2 w3} (a : Touch J K w1 w2) (b : Touch J K w2 w3) : Touch J K w1 w3 :=
   ⟨b.status.trans a.status, b.held.trans a.held, b.slots.trans a.slots, b.obsvs.trans a.obsvs,
    b.users.trans a.users, b.obsLen.trans a.obsLen, fun j hj => (b.obs j hj).trans (a.obs j hj),
-   b.cellsLen.trans a.cellsLen, fun i hi => (b.cells i hi).trans (a.cells i hi)⟩
+   b.cellsLen.trans a.cellsLen, fun i hi => (b.cells i hi).trans (a.cells i hi), b.probes.trans a.probes⟩
 
 theorem Touch.mono {J J' K K' : Nat → Prop} {w w'} (a : Touch J K w w') (hJ : ∀ j, J j → J' j)
     (hK : ∀ i, K i → K' i) : Touch J' K' w w' :=
@@ -127,7 +140,8 @@ theorem ConnsPart.touch {H fn fe fc acell cobs w w' hmap conns armed J K}
     cellO := by rw [t.cells _ hK.1]; exact h.cellO
     cellS := by rw [t.cells _ hK.2.1]; exact h.cellS
     obs := fun i hi => by rw [t.obs _ (hJ i hi)]; exact h.obs i hi
-    acell := fun i hi => by rw [t.cells _ (hK.2.2 i hi)]; exact h.acell i hi }
+    acell := fun i hi => by rw [t.cells _ (hK.2.2 i hi)]; exact h.acell i hi
+    obsv := by rw [t.obsvs]; exact h.obsv }
 
 theorem UsersPart.congr {S roots pend w observers serial f g} (h : UsersPart S roots pend w observers serial f)
     (hv : ∀ u, View (g u) = View (f u)) : UsersPart S roots pend w observers serial g := by
@@ -146,13 +160,15 @@ theorem ConnsPart.frame {H fn fe fc acell cobs w w' hmap conns armed}
     (h : ConnsPart H fn fe fc acell cobs w hmap conns armed)
     (hO : w'.cells[H.observers]? = w.cells[H.observers]?) (hS : w'.cells[H.serial]? = w.cells[H.serial]?)
     (hobs : ∀ i, i < conns.length → w'.obs[rootAt cobs i]? = w.obs[rootAt cobs i]?)
-    (hac : ∀ i, i < conns.length → w'.cells[acell i]? = w.cells[acell i]?) :
+    (hac : ∀ i, i < conns.length → w'.cells[acell i]? = w.cells[acell i]?)
+    (hv : w'.obsvs = w.obsvs := by rfl) :
     ConnsPart H fn fe fc acell cobs w' hmap conns armed :=
   { h with
     cellO := hO ▸ h.cellO
     cellS := hS ▸ h.cellS
     obs := fun i hi => (hobs i hi) ▸ h.obs i hi
-    acell := fun i hi => (hac i hi) ▸ h.acell i hi }
+    acell := fun i hi => (hac i hi) ▸ h.acell i hi
+    obsv := by rw [hv]; exact h.obsv }
 
 /-- the users' side only looks at S's cells, the user records, the root observers and the logs -/
 theorem UsersPart.frame {S roots pend w w' observers serial f}
@@ -244,7 +260,7 @@ theorem deliverU1_spec {S roots cobs pend w observers serial f} (g : Glob roots 
           regBound := h.regBound }
     · refine ⟨by unfold World.deliverTo; split <;> rfl, by unfold World.deliverTo; split <;> rfl,
         by unfold World.deliverTo; split <;> rfl, by unfold World.deliverTo; split <;> rfl, husers, ?_, ?_,
-        by rw [hcells], fun i _ => by rw [hcells]⟩
+        by rw [hcells], fun i _ => by rw [hcells], probesOf_deliverTo ..⟩
       · rw [deliverTo_obs]; split <;> simp
       · intro j hj
         rw [deliverTo_obs]; split
@@ -293,7 +309,7 @@ theorem emitS_spec {S roots cobs pend w} {s : SubjM.State} (hh : SlotReads w.hel
     rw [hread, amapVals_encMap]
     have t0 : Touch (InRoots roots) (IsCell S.observers) w { w with cells := w.cells.set S.observers .lnil } :=
       ⟨rfl, rfl, rfl, rfl, rfl, rfl, fun _ _ => rfl, by simp,
-       fun i hi => set_get_other _ (fun e => hi e.symm)⟩
+       fun i hi => set_get_other _ (fun e => hi e.symm), rfl⟩
     have h0 : UsersPart S roots pend { w with cells := w.cells.set S.observers .lnil } [] s.serial s.obs :=
       { h with
         cellO := set_get_same _ h.cellO
@@ -309,7 +325,7 @@ theorem emitS_spec {S roots cobs pend w} {s : SubjM.State} (hh : SlotReads w.hel
     rw [hread, amapVals_encMap]
     have t0 : Touch (InRoots roots) (IsCell S.observers) w { w with cells := w.cells.set S.observers .lnil } :=
       ⟨rfl, rfl, rfl, rfl, rfl, rfl, fun _ _ => rfl, by simp,
-       fun i hi => set_get_other _ (fun e => hi e.symm)⟩
+       fun i hi => set_get_other _ (fun e => hi e.symm), rfl⟩
     have h0 : UsersPart S roots pend { w with cells := w.cells.set S.observers .lnil } [] s.serial s.obs :=
       { h with
         cellO := set_get_same _ h.cellO
